@@ -12,6 +12,7 @@ import (
 	core_v1 "k8s.io/api/core/v1"
 	meta_v1 "k8s.io/apimachinery/pkg/apis/meta/v1"
 	"k8s.io/client-go/kubernetes/fake"
+	"k8s.io/client-go/tools/cache"
 
 	"github.com/atlassian/gostatsd"
 	"github.com/atlassian/gostatsd/internal/verif/lib/fx"
@@ -83,6 +84,8 @@ func (o op) String() string {
 	switch o.Kind {
 	case 98:
 		return fmt.Sprintf("delete(p%d)", o.Pod)
+	case 97:
+		return fmt.Sprintf("delete-seen-after-relist(p%d)", o.Pod)
 	case 99:
 		return fmt.Sprintf("lookup(%s)", []string{"X", "Y"}[o.Pod])
 	}
@@ -156,7 +159,7 @@ func (w *world) want(ip string) (string, []string, bool) {
 // enabled reports whether the op stays inside the property's domain.
 func (w *world) enabled(o op) bool {
 	switch o.Kind {
-	case 98:
+	case 97, 98:
 		return w.pods[o.Pod] >= 0
 	case 99:
 		return true
@@ -176,12 +179,19 @@ func (w *world) apply(o op) string {
 	idx, h := w.p.VerifIndexer(), w.p.VerifHandler()
 	name := fmt.Sprintf("p%d", o.Pod)
 	switch o.Kind {
-	case 98:
+	case 97, 98:
 		old := w.objs[o.Pod]
 		if err := idx.Delete(old); err != nil {
 			panic(err)
 		}
-		h.OnDelete(old)
+		if o.Kind == 97 {
+			// the watch was interrupted and the pod is missing from the re-list: the informer delivers the
+			// deletion as a tombstone carrying the last known state
+			key, _ := cache.MetaNamespaceKeyFunc(old)
+			h.OnDelete(cache.DeletedFinalStateUnknown{Key: key, Obj: old})
+		} else {
+			h.OnDelete(old)
+		}
 		w.pods[o.Pod], w.objs[o.Pod] = -1, nil
 	case 99:
 		ip := []string{"X", "Y"}[o.Pod]
@@ -233,7 +243,7 @@ func allOps() []op {
 		for k := range variants {
 			ops = append(ops, op{p, k})
 		}
-		ops = append(ops, op{p, 98}, op{p, 99})
+		ops = append(ops, op{p, 97}, op{p, 98}, op{p, 99})
 	}
 	return ops
 }
